@@ -15,6 +15,7 @@ import (
 	"github.com/nulab/autog/internal/graph/connected"
 	imonitor "github.com/nulab/autog/internal/monitor"
 	"github.com/nulab/autog/internal/phase2"
+	"github.com/nulab/autog/internal/phase3"
 	"github.com/nulab/autog/internal/processor"
 	"github.com/nulab/autog/internal/processor/postprocessor"
 	"github.com/nulab/autog/internal/processor/preprocessor"
@@ -314,4 +315,27 @@ func VerifCurveContained(ctrl [4][2]float64, rs []VerifRect) bool {
 		c[i] = geom.P{X: p[0], Y: p[1]}
 	}
 	return geom.VerifCurveContained(c, verifRects(rs))
+}
+
+// VerifCrossings runs the crossing counter of the ordering phase on a synthetic proper layering: the graph
+// populated from source, every node in the given layer, the nodes of a layer ordered as in the node list.
+func VerifCrossings(source graph.Source, layers map[string]int) (state VerifSnap, count int) {
+	G := from(source)
+	size := 0
+	for _, n := range G.Nodes {
+		n.Layer = layers[n.ID]
+		size = max(size, n.Layer+1)
+	}
+	G.Layers = make([]*ig.Layer, size)
+	for i := range G.Layers {
+		G.Layers[i] = &ig.Layer{Index: i}
+	}
+	for _, n := range G.Nodes {
+		l := G.Layers[n.Layer]
+		n.LayerPos = len(l.Nodes)
+		l.Nodes = append(l.Nodes, n)
+	}
+	x := &verifIndex{nidx: map[*ig.Node]int{}, eidx: map[*ig.Edge]int{}}
+	state = x.snap("crossings", 0, G)
+	return state, phase3.VerifCrossings(G)
 }
